@@ -6,8 +6,11 @@ the loop rule with an invariant, and the tactic `wp_step` that peels one model s
 import HydroVerif.Model.C05
 import HydroVerif.Lemmas.C07Grid
 import Mathlib.Tactic.Linarith
+import Mathlib.Tactic.Ring
 
 namespace HydroVerif.C05
+
+@[simp] theorem constExt_apply (n : Nat) (b : Buf) : constExt n b = n := rfl
 
 /-- the run ends with a value (no fault) and the value satisfies `Q` -/
 def wp {α : Type} (r : R α) (Q : α → Prop) : Prop := ∃ x, r = .ok x ∧ Q x
@@ -43,17 +46,23 @@ theorem wp_rdI {e : Ext} {b : Buf} {f : Nat → Int} {i : Int} {Q : Int → Prop
     (hi : 0 ≤ i ∧ i < (e b : Int)) (h : Q (f i.toNat)) : wp (rdI e b f i) Q :=
   ⟨f i.toNat, by simp [rdI, hi.1, hi.2], h⟩
 
-theorem wp_i32 {x : Int} {Q : Int → Prop} (hx : i32min ≤ x ∧ x ≤ i32max) (h : Q x) : wp (i32 x) Q :=
-  ⟨x, by simp [i32, hx.1, hx.2], h⟩
+theorem wp_i32 {x : Int} {Q : Int → Prop} (hx : -2147483648 ≤ x ∧ x ≤ 2147483647) (h : Q x) : wp (i32 x) Q :=
+  ⟨x, by simp [i32, i32min, i32max, hx.1, hx.2], h⟩
 
-theorem wp_i64 {x : Int} {Q : Int → Prop} (hx : i64min ≤ x ∧ x ≤ i64max) (h : Q x) : wp (i64 x) Q :=
-  ⟨x, by simp [i64, hx.1, hx.2], h⟩
+theorem wp_i64 {x : Int} {Q : Int → Prop} (hx : -9223372036854775808 ≤ x ∧ x ≤ 9223372036854775807) (h : Q x) :
+    wp (i64 x) Q :=
+  ⟨x, by simp [i64, i64min, i64max, hx.1, hx.2], h⟩
 
-theorem wp_castI32 {x : Int} {Q : Int → Prop} (hx : i32min ≤ x ∧ x ≤ i32max) (h : Q x) :
+theorem wp_castI32 {x : Int} {Q : Int → Prop} (hx : -2147483648 ≤ x ∧ x ≤ 2147483647) (h : Q x) :
     wp (castI32 (some x)) Q := wp_i32 hx h
 
-theorem wp_castI64 {x : Int} {Q : Int → Prop} (hx : i64min ≤ x ∧ x ≤ i64max) (h : Q x) :
-    wp (castI64 (some x)) Q := wp_i64 hx h
+theorem wp_castI64 {x : Int} {Q : Int → Prop} (hx : -9223372036854775808 ≤ x ∧ x ≤ 9223372036854775807)
+    (h : Q x) : wp (castI64 (some x)) Q := wp_i64 hx h
+
+/-- an `int` value -/
+def I32 (x : Int) : Prop := -2147483648 ≤ x ∧ x ≤ 2147483647
+/-- a `long long` value -/
+def I64 (x : Int) : Prop := -9223372036854775808 ≤ x ∧ x ≤ 9223372036854775807
 
 theorem wp_cmod {a b : Int} {Q : Int → Prop} (hb : b ≠ 0) (h : Q (a.tmod b)) : wp (cmod a b) Q :=
   ⟨a.tmod b, by simp [cmod, hb], h⟩
@@ -128,6 +137,18 @@ macro "wp_step" : tactic => `(tactic| first
   | (refine wp_ite (fun _ => ?_) (fun _ => ?_))
   | (refine wp_bite (fun _ => ?_) (fun _ => ?_)))
 
+theorem wp_daysinmonth (m : Int) : wp (daysinmonth m) (fun r => r < 0 ↔ (m < 1 ∨ m > 12)) := by
+  unfold daysinmonth
+  refine wp_ite (fun h => wp_pure ?_) (fun h => ?_)
+  · simp [h]
+  · refine wp_bind (wp_acc ⟨by omega, by simp; omega⟩ (wp_pure ?_))
+    simp; omega
+
+theorem nbdayOf_range (y m : Int) : 28 ≤ nbdayOf y m ∧ nbdayOf y m ≤ 31 := by
+  unfold nbdayOf
+  simp only []
+  split <;> [split; split] <;> omega
+
 /-- closes the post-condition of a loop body: `∀ s', x = .inl s' → Inv (j+1) s'` -/
 macro "wp_post1" : tactic =>
   `(tactic| (intro s' hs; cases hs <;> first | omega | (simp; omega) | assumption | trivial))
@@ -135,7 +156,12 @@ macro "wp_post1" : tactic =>
 /-- runs `wp_step` through a model, discharging bounds with `omega`; stops at loops with state
 (`wp_forLoop` needs its invariant) and at results that must be split by cases -/
 macro "wp_run" : tactic =>
-  `(tactic| repeat' (first | omega | trivial | wp_step | (refine wp_cmod ?_ ?_) | (refine wp_cdiv ?_ ?_) | (refine wp_forEach (fun _ _ _ => ?_) ?_) | wp_post1))
+  `(tactic| repeat' (first | omega | trivial | (simp only [constExt_apply, nbExt, oneExt, arMax] at *; omega) | wp_step | (refine wp_cmod ?_ ?_) | (refine wp_cdiv ?_ ?_) | (refine wp_forEach (fun _ _ _ => ?_) ?_) | wp_post1 | (refine wp_forLoop (fun _ _ => True) _ _ _ trivial (fun _ _ _ _ _ => ?_) (fun _ _ => ?_)) | split))
+
+/-- like `wp_run`, but stops at every loop with state and never splits a `match` (used where facts about
+the loop variable — products — must be added by hand before going on) -/
+macro "wp_lin" : tactic =>
+  `(tactic| repeat' (first | omega | trivial | (simp only [constExt_apply, nbExt, oneExt, arMax] at *; omega) | wp_step | (refine wp_cmod ?_ ?_) | (refine wp_cdiv ?_ ?_) | (refine wp_forEach (fun _ _ _ => ?_) ?_) | wp_post1))
 
 /-- `m*i + j` stays inside `m*n` for `0 ≤ i < n`, `0 ≤ j < m` (row-major indexing) -/
 theorem mul_idx_bound {m n i : Int} (hm : 0 ≤ m) (hi0 : 0 ≤ i) (hi : i < n) :
